@@ -16,23 +16,27 @@
 (* FixB / FixC / FixD select the design in which an update clears the flag / a Set invalidates *)
 (* the secondary copy / the worker removes the slot only if the entry still holds the value it *)
 (* copied (D14d); with FALSE the specification is the code as it is (known findings).          *)
+(*   Close         shards closed, maintenance and workers stop: afterwards nothing is served     *)
+(*                 (C10).  FixE = FALSE is the code before the repair D19, whose Get still        *)
+(*                 promoted-and-served out of the secondary tier after Close.                    *)
 EXTENDS Integers, Sequences, FiniteSets, TLC
 
-CONSTANTS Keys, MaxVal, MaxTime, TTLs, FixB, FixC, FixD
+CONSTANTS Keys, MaxVal, MaxTime, TTLs, FixB, FixC, FixD, FixE
 
-VARIABLES mem, sec, hq, wk, cur, now, nextV, nextId, bad
-vars == <<mem, sec, hq, wk, cur, now, nextV, nextId, bad>>
+VARIABLES mem, sec, hq, wk, cur, now, nextV, nextId, bad, closed
+vars == <<mem, sec, hq, wk, cur, now, nextV, nextId, bad, closed>>
 
 NoM == [has |-> FALSE, v |-> 0, dl |-> 0, nvm |-> FALSE, id |-> 0]
 NoS == [has |-> FALSE, v |-> 0, dl |-> 0]
 NoC == [has |-> FALSE, v |-> 0, dl |-> 0]
 
 Init == /\ mem = [k \in Keys |-> NoM] /\ sec = [k \in Keys |-> NoS] /\ hq = <<>> /\ wk = [k |-> 0, id |-> 0, v |-> 0, dl |-> 0, st |-> "idle"]
-        /\ cur = [k \in Keys |-> NoC] /\ now = 1 /\ nextV = 1 /\ nextId = 1 /\ bad = {}
+        /\ cur = [k \in Keys |-> NoC] /\ now = 1 /\ nextV = 1 /\ nextId = 1 /\ bad = {} /\ closed = FALSE
 
 Alive(x) == x.has /\ (x.dl = 0 \/ x.dl > now)
 
 Set(k, ttl) ==
+  /\ ~closed
   /\ nextV <= MaxVal /\ nextId <= MaxVal + 2
   /\ LET d == IF ttl > 0 THEN now + ttl ELSE (IF mem[k].has THEN mem[k].dl ELSE 0) IN
      /\ mem' = [mem EXCEPT ![k] = IF mem[k].has THEN [@ EXCEPT !.v = nextV, !.dl = d, !.nvm = IF FixB THEN FALSE ELSE @]
@@ -40,7 +44,7 @@ Set(k, ttl) ==
      /\ cur' = [cur EXCEPT ![k] = [has |-> TRUE, v |-> nextV, dl |-> d]]
   /\ sec' = IF FixC THEN [sec EXCEPT ![k] = NoS] ELSE sec
   /\ nextV' = nextV + 1 /\ nextId' = nextId + 1
-  /\ UNCHANGED <<hq, wk, now, bad>>
+  /\ UNCHANGED <<hq, wk, now, bad, closed>>
 
 Check(k, v) ==   \* C14 on a value returned for k
   IF ~cur[k].has THEN bad \cup {"served_deleted_or_unknown"}
@@ -48,38 +52,52 @@ Check(k, v) ==   \* C14 on a value returned for k
   ELSE IF cur[k].dl # 0 /\ cur[k].dl <= now THEN bad \cup {"served_expired"} ELSE bad
 
 Get(k) ==
-  IF Alive(mem[k])
-  THEN /\ bad' = Check(k, mem[k].v) /\ UNCHANGED <<mem, sec, hq, wk, cur, now, nextV, nextId>>
-  ELSE IF sec[k].has
-  THEN IF sec[k].dl # 0 /\ sec[k].dl <= now
-       THEN /\ sec' = [sec EXCEPT ![k] = NoS] /\ UNCHANGED <<mem, hq, wk, cur, now, nextV, nextId, bad>>
-       ELSE /\ nextId <= MaxVal + 2
-            /\ mem' = [mem EXCEPT ![k] = [has |-> TRUE, v |-> sec[k].v, dl |-> sec[k].dl, nvm |-> TRUE, id |-> nextId]]
-            /\ nextId' = nextId + 1
-            /\ bad' = Check(k, sec[k].v)
-            /\ UNCHANGED <<sec, hq, wk, cur, now, nextV>>
-  ELSE UNCHANGED vars
+  /\ ~closed
+  /\ IF Alive(mem[k])
+     THEN /\ bad' = Check(k, mem[k].v) /\ UNCHANGED <<mem, sec, hq, wk, cur, now, nextV, nextId>>
+     ELSE IF sec[k].has
+     THEN IF sec[k].dl # 0 /\ sec[k].dl <= now
+          THEN /\ sec' = [sec EXCEPT ![k] = NoS] /\ UNCHANGED <<mem, hq, wk, cur, now, nextV, nextId, bad>>
+          ELSE /\ nextId <= MaxVal + 2
+               /\ mem' = [mem EXCEPT ![k] = [has |-> TRUE, v |-> sec[k].v, dl |-> sec[k].dl, nvm |-> TRUE, id |-> nextId]]
+               /\ nextId' = nextId + 1
+               /\ bad' = Check(k, sec[k].v)
+               /\ UNCHANGED <<sec, hq, wk, cur, now, nextV>>
+     ELSE UNCHANGED <<mem, sec, hq, wk, cur, now, nextV, nextId, bad>>
+  /\ UNCHANGED closed
+
+\* after Close: the memory tier is empty (shards reset); the repaired Get misses under the shard lock,
+\* the code before D19 still read the secondary tier and returned what it found (nothing is inserted
+\* into a closed shard)
+GetClosed(k) ==
+  /\ closed
+  /\ bad' = IF ~FixE /\ sec[k].has /\ ~(sec[k].dl # 0 /\ sec[k].dl <= now) THEN bad \cup {"served_after_close"} ELSE bad
+  /\ sec' = IF ~FixE /\ sec[k].has /\ sec[k].dl # 0 /\ sec[k].dl <= now THEN [sec EXCEPT ![k] = NoS] ELSE sec
+  /\ UNCHANGED <<mem, hq, wk, cur, now, nextV, nextId, closed>>
 
 Delete(k) ==
   /\ mem' = [mem EXCEPT ![k] = NoM] /\ sec' = [sec EXCEPT ![k] = NoS] /\ cur' = [cur EXCEPT ![k] = NoC]
-  /\ UNCHANGED <<hq, wk, now, nextV, nextId, bad>>
+  /\ UNCHANGED <<hq, wk, now, nextV, nextId, bad, closed>>
 
 \* capacity eviction of the entry of k (the policy may pick any entry)
 Evict(k) ==
+  /\ ~closed
   /\ mem[k].has /\ ~\E i \in DOMAIN hq : hq[i] = mem[k].id
   /\ IF mem[k].nvm
      THEN mem' = [mem EXCEPT ![k] = NoM] /\ UNCHANGED hq
      ELSE hq' = Append(hq, mem[k].id) /\ UNCHANGED mem
-  /\ UNCHANGED <<sec, wk, cur, now, nextV, nextId, bad>>
+  /\ UNCHANGED <<sec, wk, cur, now, nextV, nextId, bad, closed>>
 
 \* timer expiry of the memory entry
 Expire(k) ==
+  /\ ~closed
   /\ mem[k].has /\ mem[k].dl # 0 /\ mem[k].dl <= now
   /\ mem' = [mem EXCEPT ![k] = NoM]
-  /\ UNCHANGED <<sec, hq, wk, cur, now, nextV, nextId, bad>>
+  /\ UNCHANGED <<sec, hq, wk, cur, now, nextV, nextId, bad, closed>>
 
 \* worker: take an item; under the read lock check the key is still in the map and copy the entry
 WCopy ==
+  /\ ~closed
   /\ wk.st = "idle" /\ hq # <<>>
   /\ LET id == Head(hq)
          ks == {k \in Keys : mem[k].has}            \* "key still exists" (by key, not by identity)
@@ -89,27 +107,36 @@ WCopy ==
            ELSE LET k == CHOOSE x \in k0 : TRUE IN
                 /\ sec' = [sec EXCEPT ![k] = [has |-> TRUE, v |-> mem[k].v, dl |-> mem[k].dl]]
                 /\ wk' = [k |-> k, id |-> id, v |-> mem[k].v, dl |-> mem[k].dl, st |-> "copied"]
-  /\ UNCHANGED <<mem, cur, now, nextV, nextId, bad>>
+  /\ UNCHANGED <<mem, cur, now, nextV, nextId, bad, closed>>
 
 \* worker: remove the slot by identity
 WDrop ==
   /\ wk.st = "copied"
   /\ mem' = IF mem[wk.k].has /\ mem[wk.k].id = wk.id /\ (FixD => mem[wk.k].v = wk.v) THEN [mem EXCEPT ![wk.k] = NoM] ELSE mem
   /\ wk' = [wk EXCEPT !.st = "idle"]
-  /\ UNCHANGED <<sec, hq, cur, now, nextV, nextId, bad>>
+  /\ UNCHANGED <<sec, hq, cur, now, nextV, nextId, bad, closed>>
 
-Advance == now < MaxTime /\ now' = now + 1 /\ UNCHANGED <<mem, sec, hq, wk, cur, nextV, nextId, bad>>
+\* Close: every shard is closed and emptied under its lock, the maintenance goroutine, the ticker and
+\* the workers stop (a worker in the middle of an item finishes it: WDrop stays enabled)
+Close ==
+  /\ ~closed /\ closed' = TRUE
+  /\ mem' = [k \in Keys |-> NoM] /\ hq' = <<>>
+  /\ UNCHANGED <<sec, wk, cur, now, nextV, nextId, bad>>
+
+Advance == now < MaxTime /\ now' = now + 1 /\ UNCHANGED <<mem, sec, hq, wk, cur, nextV, nextId, bad, closed>>
 
 Next == \/ \E k \in Keys, t \in TTLs : Set(k, t)
-        \/ \E k \in Keys : Get(k) \/ Delete(k) \/ Evict(k) \/ Expire(k)
-        \/ WCopy \/ WDrop \/ Advance
+        \/ \E k \in Keys : Get(k) \/ GetClosed(k) \/ Delete(k) \/ Evict(k) \/ Expire(k)
+        \/ WCopy \/ WDrop \/ Advance \/ Close
 Spec == Init /\ [][Next]_vars
 
 \* C14
 Fresh == bad = {}
+\* C10 (hybrid part): nothing is served once Close has happened
+ClosedQuiet == "served_after_close" \notin bad
 \* C15: once the workers are idle, a key whose value is live is in one of the tiers with that value
 \* (entries dropped because their flag said "already in the secondary tier" must really be there)
-Demoted == (hq = <<>> /\ wk.st = "idle") =>
+Demoted == (~closed /\ hq = <<>> /\ wk.st = "idle") =>
              \A k \in Keys : (cur[k].has /\ (cur[k].dl = 0 \/ cur[k].dl > now)) =>
                  \/ (mem[k].has /\ mem[k].v = cur[k].v)
                  \/ (sec[k].has /\ sec[k].v = cur[k].v)
